@@ -73,9 +73,8 @@ Inputs ==
     ELSE InStateInputs \cup {[e |-> "ret"]}
          \cup (IF UseRaise THEN {[e |-> "raise", caught |-> c] : c \in (IF Len(stack) > 1 THEN BOOLEAN ELSE {FALSE})} ELSE {})
 
-\* on_enable() while the latch is already set is outside the explored space (the selector
-\* always calls on_disable() between two on_enable())
-Allowed(ev) == ~(ev.e = "aenable" /\ autoOn) /\ ~(ev.e = "aiter" /\ ~latchSet)
+\* on_iteration() before any on_enable() is outside the lifecycle the selector guarantees
+Allowed(ev) == ~(ev.e = "aiter" /\ ~latchSet)
 
 MCNext == \E ev \in Inputs : Allowed(ev) /\ EvNext(ev)
 MCSpec == MCInit /\ [][MCNext]_mvars
